@@ -146,6 +146,11 @@ func restrictNesting(ts []*trig) {
 			if a.kind == "setnew" && t.table == "c" && a.col == "a" {
 				continue // c.a is the foreign key column
 			}
+			if a.kind == "signal" && t.table != "m" && t.table != "c" {
+				// triggers that can be fired by a nested statement never fail: a failure inside a nested trigger
+				// leaves yet another partial state (same root cause as the F4 findings), outside the two matchers
+				continue
+			}
 			// known finding set-new-not-visible-later-in-same-body (via=domain): after SET NEW.x no later
 			// action of the same body reads NEW.x (another SET NEW.x = NEW.x + k included)
 			stale := false
